@@ -277,6 +277,10 @@ impl LruDiskCache {
         let path = self.rel_to_abs_path(rel_path);
         fs::create_dir_all(path.parent().expect("Bad path?"))?;
         by(&path)?;
+        // The file at `path` has just been (over)written: drop the index entry of a previous
+        // file under this key first, otherwise making space below could evict that stale
+        // entry and thereby delete the file we just wrote while it stays indexed.
+        self.lru.remove(rel_path);
         let size = match size {
             Some(size) => size,
             None => fs::metadata(path)?.len(),
